@@ -7,7 +7,7 @@ ASSUMPTIONS = ['numbers restricted to the interoperable range |n| < 2^53 or non-
                "Rust's slice::sort / sort_by and IndexMap::sort_by are stable sorts; BTreeMap iterates in key order (std / indexmap contracts)"]
 TRUSTED = []
 
-UNIVERSE = [None, False, True, '', 'a', 'b', 'ab', 'B', 'é', 'z', '￿', 'aa', ' ', '0', 0, 1, 2, -1, 10, 2.5, -2.5, 0.1, 1e21, 1e-7, 9007199254740991, -9007199254740991, 1.5, 100,
+UNIVERSE = [None, False, True, '', 'a', 'b', 'ab', 'B', 'é', 'z', '￿', 'aa', ' ', '0', 0, 1, 2, -1, -2, -3, -0.5, 0.5, 3, 10, 2.5, -2.5, 0.1, 1e21, 1e-7, 9007199254740991, -9007199254740991, 1.5, 100,
             {}, {'a': 1}, {'a': 2}, {'b': 1}, {'a': 1, 'b': 2}, {'b': 2, 'a': 1}, {'a': 'x'}, {'a': None}, {'a': [1]}, {'aa': 1},
             [], [1], [2], [1, 2], [1, 1], [None], ['a'], [[]], [[1]], [{}], [1, 'a'], [True], [0.5]]
 
@@ -85,12 +85,13 @@ def run(ctx):
         c = mkcase('S%d' % i, cfg, gen.stream(rws)); cases.append(c); meta[c['id']] = ('rows', rws, keys)
     # the sort functions and comparison functions on universe samples
     for i in range(n // 2):
-        arr = [rnd.choice(UNIVERSE) for _ in range(rnd.choice([0, 1, 3, 8, 20]))]
+        arr = [rnd.choice(UNIVERSE) for _ in range(rnd.choice([0, 1, 3, 8, 20, 33, 40]))]
         c = mkcase('F%d' % i, lib.new_cfg(select=['(sort .)=s']), gen.jdump(arr)); cases.append(c); meta[c['id']] = ('sort', arr)
         a, b = rnd.choice(UNIVERSE), rnd.choice(UNIVERSE)
         c = mkcase('L%d' % i, lib.new_cfg(select=['(< .a .b)=lt', '(<= .a .b)=le', '(> .a .b)=gt', '(>= .a .b)=ge']), gen.jdump({'a': a, 'b': b}))
         cases.append(c); meta[c['id']] = ('cmp', a, b)
-        objs = [{'v': rnd.choice(UNIVERSE), 'i': j} for j in range(rnd.choice([0, 2, 5, 12]))]
+        few = rnd.sample(UNIVERSE, 3)
+        objs = [{'v': rnd.choice(few if rnd.random() < 0.6 else UNIVERSE), 'i': j} for j in range(rnd.choice([0, 2, 5, 12, 33, 40]))]
         c = mkcase('B%d' % i, lib.new_cfg(select=['(sort_by . .v)=s']), gen.jdump(objs)); cases.append(c); meta[c['id']] = ('sort_by', objs)
     if ctx['tier'] == 'thorough':
         for t, (a, b, cc) in enumerate(itertools.product(UNIVERSE, repeat=3)):
